@@ -304,6 +304,8 @@ Spl(g, e, line) ==
              /\ Chk("C13.LimitedNodesIdentified", line, SplLimitedCount(x, e))
              /\ Chk("C13.SolvesImplicitEquation", line, SplEncloses(x, r, e))
              /\ Chk("C13.ResidualWithinTolerance", line, SplResidualSharp(x, r, e))
+             /\ ("dn40" \in DOMAIN e) => /\ Chk("C13.NearOneAccepted", line, e.nthrew = "")
+                                         /\ (e.nthrew = "") => Chk("C13.ExponentNearOneIsNotOne", line, SplNearOneIsNotOne(x, r, e))
   /\ UNCHANGED fvars
 
 BasinGraphObs(g, b, line) ==
